@@ -37,6 +37,8 @@ const unsigned long FOREIGN_BASE = 1000000;
 void body() {
     RecordingAllocator rec;
     SimpleStringInternalCache* cache = 0;
+    GlobalSimpleStringCache* gcache = 0;          // the global cache object (string allocator = its SimpleStringCacheAllocator)
+    TestMemoryAllocator* savedStringAllocator = 0;
     std::map<unsigned long, char*> handed;     // id -> pointer for buffers returned by alloc
     const vh::Case& c = *g_case;
     std::map<std::string, unsigned long> labels;   // generator label -> id of the buffer that alloc returned
@@ -49,6 +51,38 @@ void body() {
             // which cannot be replaced; the table allocation is therefore not observed.
             cache = new SimpleStringInternalCache();
             cache->setAllocator(&rec);
+        }
+        else if (w[0] == "gcreate" && !cache && !gcache) {
+            // GlobalSimpleStringCache takes SimpleString's current allocator as the cache's underlying allocator
+            vh::emit_op("gcreate");
+            savedStringAllocator = SimpleString::getStringAllocator();
+            SimpleString::setStringAllocator(&rec);
+            rec.quiet = true;                          // `new SimpleStringCacheAllocator` etc. are not string buffers
+            gcache = new GlobalSimpleStringCache();
+            rec.quiet = false;
+        }
+        else if (w[0] == "alloc" && w.size() >= 2 && gcache) {       // through SimpleStringCacheAllocator::alloc_memory
+            size_t size = (size_t) vh::to_u64(w[1]);
+            vh::emit("> alloc %lu", (unsigned long) size);
+            char* p = gcache->getAllocator()->alloc_memory(size, __FILE__, __LINE__);
+            unsigned long id = rec.ids.count(p) ? rec.ids[p] : 0;
+            handed[id] = p;
+            if (w.size() >= 3) labels[w[2]] = id;
+            if (size > 0) { memset(p, 'x', size - 1); p[size - 1] = 0; }
+            vh::emit("ret %lu", id);
+        }
+        else if (w[0] == "dealloc" && w.size() >= 3 && gcache) {     // through SimpleStringCacheAllocator::free_memory
+            size_t size = (size_t) vh::to_u64(w[2]);
+            char* p = 0; unsigned long id = 0;
+            if (w[1].compare(0, 7, "foreign") == 0) { id = FOREIGN_BASE + (unsigned long) (w[1][7] - '0') % 8; p = g_foreign[id - FOREIGN_BASE]; }
+            else if (labels.count(w[1])) { id = labels[w[1]]; p = handed[id]; }
+            if (p) { vh::emit("> dealloc %lu %lu", id, (unsigned long) size); gcache->getAllocator()->free_memory(p, size, __FILE__, __LINE__); }
+            else vh::emit("> skip");
+        }
+        else if (w[0] == "gdestroy" && gcache) {
+            vh::emit_op("gdestroy");
+            delete gcache; gcache = 0;
+            SimpleString::setStringAllocator(savedStringAllocator);
         }
         else if (w[0] == "alloc" && w.size() >= 2 && cache) {        // alloc <size> [label]
             size_t size = (size_t) vh::to_u64(w[1]);
@@ -79,6 +113,7 @@ void body() {
         }
     }
     rec.quiet = true;   // end-of-case cleanup is not part of the history
+    if (gcache) { delete gcache; gcache = 0; SimpleString::setStringAllocator(savedStringAllocator); }
     if (cache) { cache->clearAllIncludingCurrentlyUsedMemory(); delete cache; }
 }
 
